@@ -1075,12 +1075,20 @@ End BatchLocal.
 (* ------------------------------------------------------------------------------------ *)
 (* 5. the register machine of the correspondence and the keyed store                      *)
 (* ------------------------------------------------------------------------------------ *)
+Lemma bytes_list_eqb_eq : forall a b, bytes_list_eqb a b = true <-> a = b.
+Proof.
+  induction a as [|x a IH]; destruct b as [|y b]; cbn; try (split; [discriminate|intro H; inversion H]; fail); [tauto|].
+  rewrite andb_true_iff, Bytes.bytes_eqb_eq, IH. split; [intros [? ?]; congruence|intro H; inversion H; auto].
+Qed.
+
 Lemma prep_eqb_eq : forall a b, prep_eqb a b = true <-> a = b.
 Proof.
-  intros a b. destruct a as [[x|]| |x| | |x], b as [[y|]| |y| | |y]; cbn;
+  intros a b.
+  destruct a as [[x|]| |x| | | |x|x], b as [[y|]| |y| | | |y|y]; cbn;
     try (split; [discriminate|intro H; inversion H]; fail); try tauto.
   - rewrite Bytes.bytes_eqb_eq. split; [congruence|intro H; inversion H; reflexivity].
   - rewrite Z.eqb_eq. split; [congruence|intro H; inversion H; reflexivity].
+  - rewrite bytes_list_eqb_eq. split; [congruence|intro H; inversion H; reflexivity].
   - rewrite Bytes.bytes_eqb_eq. split; [congruence|intro H; inversion H; reflexivity].
 Qed.
 Lemma preps_eqb_eq : forall a b, preps_eqb a b = true <-> a = b.
@@ -1089,7 +1097,7 @@ Proof.
   rewrite andb_true_iff, prep_eqb_eq, IH. split; [intros [? ?]; congruence|intro H; inversion H; auto].
 Qed.
 
-Notation klin := (linearizable_complete (option (list N)) (list prim) (list prep) kstep).
+Notation klin := (linearizable_complete kst (list prim) (list prep) kstep).
 
 Lemma lin_check_sound_lemma : forall init h, lin_check init h = true -> klin init h.
 Proof. intros init h. apply lin_check_gen_sound. exact preps_eqb_eq. Qed.
@@ -1118,7 +1126,7 @@ Proof.
 Qed.
 
 (* the keyed store satisfies the hypotheses of the per-key theorem, for any shard count *)
-Lemma store_key_local : forall (s : nat -> option (list N)) op k, store_touches op k = true ->
+Lemma store_key_local : forall (s : nat -> kst) op k, store_touches op k = true ->
   store_kstep k (store_view s k) op =
   (store_view (fst (store_step s op)) k, snd (store_step s op)).
 Proof.
@@ -1126,7 +1134,7 @@ Proof.
   unfold store_kstep, store_view, store_step. cbn [fst snd]. rewrite upd_eq.
   destruct (kstep (s k) ops); reflexivity.
 Qed.
-Lemma store_key_frame : forall (s : nat -> option (list N)) op k, store_touches op k = false ->
+Lemma store_key_frame : forall (s : nat -> kst) op k, store_touches op k = false ->
   store_view (fst (store_step s op)) k = store_view s k.
 Proof.
   intros s [key ops] k H. unfold store_touches in H. cbn in H. apply Nat.eqb_neq in H.
